@@ -75,7 +75,7 @@ class Bitset(Sequence):
 
         self.value = value
         try:
-            self.length = length or math.floor(math.log(value, 2)) + 1
+            self.length = length or max(value, 0).bit_length()
         except Exception:
             self.length = 0
 
